@@ -308,8 +308,31 @@ func validateImportedLog(log ledger.Log) error {
 		if payload.RevertedTransaction.RevertedAt == nil {
 			return fmt.Errorf("log %d: reverted transaction without revert date", *log.ID)
 		}
+	case ledger.SavedMetadata:
+		if err := validateImportedTarget(payload.TargetType, payload.TargetID); err != nil {
+			return fmt.Errorf("log %d: %w", *log.ID, err)
+		}
+	case ledger.DeletedMetadata:
+		if err := validateImportedTarget(payload.TargetType, payload.TargetID); err != nil {
+			return fmt.Errorf("log %d: %w", *log.ID, err)
+		}
 	case nil:
 		return fmt.Errorf("log %d: missing data", *log.ID)
+	}
+	return nil
+}
+
+// validateImportedTarget checks that the target id of a metadata log has the type importLog asserts.
+func validateImportedTarget(targetType string, targetID any) error {
+	switch targetType {
+	case ledger.MetaTargetTypeTransaction:
+		if _, ok := targetID.(uint64); !ok {
+			return fmt.Errorf("invalid transaction id '%v'", targetID)
+		}
+	case ledger.MetaTargetTypeAccount:
+		if _, ok := targetID.(string); !ok {
+			return fmt.Errorf("invalid account address '%v'", targetID)
+		}
 	}
 	return nil
 }
